@@ -7,8 +7,11 @@
 (*  type checker   tcs[t]  : function  type name -> predicate id           *)
 (*  class          cls[c]  : [kw : set of feature tags, tc : t,            *)
 (*                            idkw : "id" | "$id", meta : metaschema id]   *)
-(*  validator obj  vals[v] : [c : class, tc : t]   (tc: instance level,    *)
-(*                            the deprecated `types` argument)             *)
+(*  validator obj  vals[v] : [c : class, tc : t, known : set of metaschema *)
+(*                            ids]  (tc: instance level, the deprecated    *)
+(*                            `types` argument; known: the registered      *)
+(*                            metaschema ids its resolver's store received *)
+(*                            when the object was constructed)             *)
 (*  format checker fcs[f]  : function  format name -> function id          *)
 (*  clsFormats             : the class-wide format registry                *)
 (*  byName, byId           : version name -> class, metaschema id -> class *)
@@ -42,6 +45,8 @@ Pred(pid, x) ==
 StdTc(d) == [n \in {"null", "boolean", "integer", "number", "string", "array", "object"} \cup (IF d = 3 THEN {"any"} ELSE {}) |->
                IF n = "integer" THEN (IF d <= 4 THEN "int34" ELSE "int67") ELSE n]
 
+NewMetaId == "http://new-meta.invalid/schema"      \* the one fresh metaschema id Create may register (MC_C16)
+
 \* ---- behaviour tables ---------------------------------------------------------------------------------
 TypeNamesProbed == {"integer", "string", "newtype", "any"}
 TcBeh(tc) == [n \in TypeNamesProbed |-> IF n \in DOMAIN tc THEN [x \in ProbeInsts |-> Pred(tc[n], x)] ELSE "undefined"]
@@ -60,7 +65,10 @@ FcBeh(f) == f                                     \* format name -> function id 
 
 Beh == [tc |-> [t \in DOMAIN tcs |-> TcBeh(tcs[t])],
         cls |-> [c \in DOMAIN cls |-> ClassBeh(cls[c], tcs[cls[c].tc])],
-        val |-> [v \in DOMAIN vals |-> ClassBeh(cls[vals[v].c], tcs[vals[v].tc])],
+        \* a validator object resolves a reference to a registered metaschema id exactly when the id was registered
+        \* BEFORE the object was constructed (its store is seeded then; later registrations do not reach it)
+        val |-> [v \in DOMAIN vals |-> [ClassBeh(cls[vals[v].c], tcs[vals[v].tc]) EXCEPT !.cs = "n/a"]
+                                       @@ [knows |-> NewMetaId \in vals[v].known]],
         fc |-> [f \in DOMAIN fcs |-> FcBeh(fcs[f])]]
 
 \* ---- operations ---------------------------------------------------------------------------------------
@@ -94,8 +102,8 @@ Create(c, version, metaid) ==
 NewValidator(c, withTypes) ==
   /\ IF withTypes
      THEN /\ tcs' = Append(tcs, [x \in DOMAIN tcs[cls[c].tc] \cup {"newtype"} |-> IF x = "newtype" THEN "pystr" ELSE tcs[cls[c].tc][x]])
-          /\ vals' = Append(vals, [c |-> c, tc |-> New(tcs)])
-     ELSE /\ tcs' = tcs /\ vals' = Append(vals, [c |-> c, tc |-> cls[c].tc])
+          /\ vals' = Append(vals, [c |-> c, tc |-> New(tcs), known |-> DOMAIN byId])
+     ELSE /\ tcs' = tcs /\ vals' = Append(vals, [c |-> c, tc |-> cls[c].tc, known |-> DOMAIN byId])
   /\ UNCHANGED <<cls, fcs, clsFormats, byName, byId>>
   /\ Log([op |-> "validator", c |-> c, types |-> withTypes, new |-> New(vals)])
 Checks(f, name, fn) ==
